@@ -340,9 +340,19 @@ func (s *c20Sys) final() string {
 	return b.String()
 }
 
+// hooks of harness/c20_eng.go (nil = no effect): c20AfterBuild may instrument the freshly built
+// platform (per-scheduler engine wrappers, frequencies); c20AfterRun sees the finished run.
+var (
+	c20AfterBuild func(s *c20Sys)
+	c20AfterRun   func(r *Run, s *c20Sys, t c20Trace, idle bool)
+)
+
 func c20RunCase(r *Run, G, S, C int, t c20Trace) {
 	k, b, w, n, deg := t.totals()
 	s := c20Build(G, S, C)
+	if c20AfterBuild != nil {
+		c20AfterBuild(s)
+	}
 	runner := new(nvrunner.RunnerBuilder).WithPlatform(s.p).Build()
 	bm := &nvbench.Benchmark{}
 	for _, kk := range t.kernels() {
@@ -397,6 +407,9 @@ func c20RunCase(r *Run, G, S, C int, t c20Trace) {
 	}
 	for i, c := range s.subs {
 		idle = idle && c.VerifFinished() == 0 && c.VerifUnfinished() == 0 && s.subUp[i].in+s.subUp[i].out == 0
+	}
+	if c20AfterRun != nil {
+		c20AfterRun(r, s, t, idle)
 	}
 	if !idle {
 		r.Failf("C20.terminates.not_finished."+deg, cfg,
